@@ -90,27 +90,32 @@ func (c *Ctx) runZeroSlot(rule string, pkgs []*packages.Package, fileOK func(nam
 					if iv == nil {
 						return true
 					}
+					// arrays stored inside the loop, at the loop index or at a constant
+					// index, under a condition (the loop may end before a slot is stored)
 					tracked := map[types.Object]bool{}
+					if t := info.TypeOf(rs.X); t != nil {
+						if _, isSlice := t.Underlying().(*types.Slice); !isSlice {
+							return true // arrays, maps, strings: not a sequence of unknown length
+						}
+					}
 					ast.Inspect(rs.Body, func(n2 ast.Node) bool {
-						ifs, ok := n2.(*ast.IfStmt)
-						if !ok {
+						var body []ast.Stmt
+						switch x := n2.(type) {
+						case *ast.IfStmt:
+							body = x.Body.List
+						case *ast.CaseClause:
+							body = x.Body
+						default:
 							return true
 						}
-						be, ok := ifs.Cond.(*ast.BinaryExpr)
-						if !ok || be.Op != token.LSS {
-							return true
-						}
-						if id, ok := be.X.(*ast.Ident); !ok || info.Uses[id] != iv {
-							return true
-						}
-						ast.Inspect(ifs.Body, func(n3 ast.Node) bool {
-							as, ok := n3.(*ast.AssignStmt)
-							if !ok {
-								return true
-							}
-							for _, l := range as.Lhs {
-								if ix, ok := l.(*ast.IndexExpr); ok {
-									if id, ok := ix.Index.(*ast.Ident); ok && info.Uses[id] == iv {
+						for _, st := range body {
+							ast.Inspect(st, func(n3 ast.Node) bool {
+								as, ok := n3.(*ast.AssignStmt)
+								if !ok {
+									return true
+								}
+								for _, l := range as.Lhs {
+									if ix, ok := l.(*ast.IndexExpr); ok {
 										if o := exprObj(info, ix.X); o != nil {
 											if _, isArr := arrays[o]; isArr {
 												tracked[o] = true
@@ -118,11 +123,12 @@ func (c *Ctx) runZeroSlot(rule string, pkgs []*packages.Package, fileOK func(nam
 										}
 									}
 								}
-							}
-							return true
-						})
+								return true
+							})
+						}
 						return true
 					})
+					_ = iv
 					for o := range tracked {
 						// a read A[k], k >= 1 constant, after the loop
 						var readPos token.Pos
